@@ -212,16 +212,18 @@ def _tg_post(ctx):
     if r["keys"] != s["keys"] or [t["name"] for t in r["tiers"]] != s["keys"]:
         REC.violation(PROP, mon, "Textgrid.editTimestamps", case, "tier names/order %r, expected %r" % (r["keys"], s["keys"]), sig, mech)
         return
-    his = [M.F(s["max"])]
+    his, los = [M.F(s["max"])], [M.F(s["min"])]
     for ts in s["tiers"]:
         exp, lo, hi, _ = M.shift(ts["t"], ents_of(ts), ts["min"], ts["max"], off)
+        los.append(lo)
         why = check_result_tier(ts, ctx.result.getTier(ts["name"]), [exp], lo, hi, scale)
         if why:
             REC.violation(PROP, mon, "Textgrid.editTimestamps", case, "tier %r: %s" % (ts["name"], why), sig, mech)
             return
         his.append(hi)
-    if not M.num_close(r["min"], M.F(s["min"]), scale) or not M.num_close(r["max"], max(his), scale):
-        REC.violation(PROP, mon, "Textgrid.editTimestamps", case, "textgrid span [%r, %r], expected [%r, %s]" % (r["min"], r["max"], s["min"], M.fmt(max(his))), sig, mech)
+    # the span grows (at either end) to contain moved entries and never shrinks
+    if not M.num_close(r["min"], min(los), scale) or not M.num_close(r["max"], max(his), scale):
+        REC.violation(PROP, mon, "Textgrid.editTimestamps", case, "textgrid span [%r, %r], expected [%s, %s]" % (r["min"], r["max"], M.fmt(min(los)), M.fmt(max(his))), sig, mech)
         return
     if mode == "silence" and ctx.stdout:
         REC.violation(PROP, mon, "Textgrid.editTimestamps", case, "reportingMode='silence' printed %r" % ctx.stdout[:120], sig, mech)
@@ -283,7 +285,8 @@ def _apptg_pre(ctx):
     if not (snap.is_tg(a) and snap.is_tg(b)) or not isinstance(flag, bool):
         return SKIP
     sa, sb = snap.tg_snap(a), snap.tg_snap(b)
-    if not (_tg_wellformed(sa) and _tg_wellformed(sb)):
+    # a textgrid that has a span and no tiers (yet) is a well-formed operand of a concatenation: it is a stretch of time
+    if not all(_tg_wellformed(x) or (not x["tiers"] and num(x["min"]) and num(x["max"]) and 0 <= x["min"] < x["max"]) for x in (sa, sb)):
         REC.skip("append.textgrid", "operand-not-well-formed")
         return SKIP
     ta = {t["name"]: t["t"] for t in sa["tiers"]}
@@ -309,6 +312,10 @@ def _apptg_post(ctx):
         classes.append("C09:append:empty-tier-in-B")
     if any(t["max"] < sa["max"] for t in sa["tiers"]):
         classes.append("C09:append:A-has-narrower-tier")
+    if not sa["tiers"] or not sb["tiers"]:
+        classes.append("C09:append:operand-without-tiers")
+    if sa["min"] > 0:
+        classes.append("C09:append:A-starts-after-0")
     sig = ("apptg", flag, tuple(classes), len(na), len(nb))
     mech = {"kind": "TG", "exc": type(ctx.exc).__name__ if ctx.exc else None, "b_has_empty_tier": any(not t["entries"] for t in sb["tiers"])}
     REC.outcome(mon, ctx.exc)
@@ -399,7 +406,8 @@ def roundtrip(t, x):
 OFFSETS = [0.0, 0.125, -0.125, 0.25, -0.25, 1.0, -1.0, 0.1, -0.1, 1 / 3, -1 / 3, 0.001, -0.001, 5.0, -5.0, 10.0, -10.0]
 
 
-def rand_tg(rng, names, hi, src, p_empty=0.2):
+def rand_tg(rng, names, hi, src, p_empty=0.2, lo=0.0):
+    """lo > 0: an excerpt that keeps the time axis of the recording it was cut from"""
     from praatio.data_classes.textgrid import Textgrid
 
     tg = Textgrid()
@@ -407,10 +415,10 @@ def rand_tg(rng, names, hi, src, p_empty=0.2):
         if rng.random() < p_empty:
             ents = []
         elif kind == "I":
-            ents = gen.rand_interval_entries(rng, 4, hi, src=src)
+            ents = [(a + lo, b + lo, l) for a, b, l in gen.rand_interval_entries(rng, 4, hi - lo, src=src)]
         else:
-            ents = gen.rand_point_entries(rng, 4, hi, src=src)
-        tg.addTier(make_tier(kind, n, ents, 0.0, hi), reportingMode="silence")
+            ents = [(t + lo, l) for t, l in gen.rand_point_entries(rng, 4, hi - lo, src=src)]
+        tg.addTier(make_tier(kind, n, ents, lo, hi), reportingMode="silence")
     return tg
 
 
@@ -432,6 +440,8 @@ def workload(tier, rng, shard, nshards, work):
 
 
 def _workload(tier, rng, shard, nshards):
+    from praatio.data_classes.textgrid import Textgrid
+
     # dyadic grid tiers x offsets on the grid x modes
     ncells = 4
     grid_offs = [k * gen.UNIT / 2 for k in range(-10, 11)]
@@ -491,8 +501,13 @@ def _workload(tier, rng, shard, nshards):
             nb = rng.sample(universe, rng.randrange(1, 4))
         else:
             nb = [u for u in universe if u not in na][: rng.randrange(1, 3)] or list(na)
-        A = rand_tg(rng, na, rng.choice([2.0, 3.5, 5.0]), src)
+        A = rand_tg(rng, na, rng.choice([2.0, 3.5, 5.0]), src, lo=rng.choice([0.0, 0.0, 0.0, 0.5, 1.25]))
         B = rand_tg(rng, nb, rng.choice([1.0, 2.5, 5.0]), src)
+        x = rng.random()
+        if x < 0.04:
+            A = Textgrid(0.0, rng.choice([2.0, 3.5]))  # a stretch of time nothing is annotated in (yet)
+        elif x < 0.08:
+            B = Textgrid(0.0, rng.choice([1.0, 2.5]))
         C = call(A.appendTextgrid, B, rng.random() < 0.5)
         if C is not None and len(C.tierNames) and rng.random() < 0.7:
             # chaining: tiers that were only in A end before the combined textgrid does
